@@ -154,7 +154,7 @@ pub fn run(ctx: &mut Ctx) -> Step {
             }
             let ok = op(Op::Apply, || board.move_mut(ChessMove { source: mv.source, dest: mv.dest, piece: None }));
             if !ok {
-                return ctx.fail(Prop::C17, "book.illegal", feat, format!("the checked move operation refused book move {}; line {line:?}", m.text()));
+                return ctx.fail(Prop::C17, "book.refused", feat, format!("book move {} is legal by the reference rules but the checked move operation (what the CLI asserts on) refused it; line {line:?}", m.text()));
             }
             model = model.make(m);
             ctx.stats.bump("c17.book-moves");
